@@ -30,7 +30,7 @@ passed = set()
 for tc in ET.parse(out).getroot().iter('testcase'):
     bad = any(ch.tag in ('failure', 'error', 'skipped') for ch in tc)
     if not bad:
-        passed.add(f"{tc.get('classname')}::{tc.get('name')}")
+        passed.add(f"{tc.get('classname')}::{tc.get('name')}".replace(os.path.realpath(tree), '/repo').replace(tree, '/repo'))
 os.unlink(out)
 missing = sorted(stable - passed)
 print(r.stdout.strip().splitlines()[-1])
